@@ -574,3 +574,89 @@ BUILDERS = {
 }
 HEAVY = {"bignSign", "bignSign2", "bignKeypairGen", "bignPubkeyCalc", "bignDH", "bignKeyWrap", "bignKeyUnwrap",
          "bignKeyUnwrap:bad", "bignKeyUnwrap:short", "bpkiPrivkeyWrap", "bpkiPrivkeyUnwrap", "bpkiPrivkeyUnwrap:bad", "bpkiPrivkeyUnwrap:oversized"}
+
+# ---------------------------------------------------------------------------------------------------------------
+# bake: the Run drivers (they allocate their protocol state with blobCreate).  The peer is a scripted channel: the
+# honest transcript is recorded once in the parent (both parties over c04's in-memory pipe), then the party under
+# test is run alone, with the same generator tape, against the recorded replies (optionally with the last reply's
+# authentication tag spoiled, which makes the driver leave through its error path after most of the protocol).
+
+_BAKE_ENV = {}
+
+
+def _bake_run(proto, side, bad=False):
+    name = "bake%sRun%s" % (proto, side) + (":badtag" if bad else "")
+
+    def build(lib, rng, size):
+        from . import c04
+        env = _BAKE_ENV.get(id(lib))
+        if env is None:
+            env = _BAKE_ENV[id(lib)] = c04.Env(lib)
+        c04._TAPES.clear()
+        del c04._CB_ERR[:]
+        l = 128
+        n = rng.getrandbits(16)
+        mine = 0 if side == "A" else 1
+        c = Call(name, lambda thunk: thunk())
+        c.expect_ok = not bad
+        c.exit_class = "bad-peer-tag" if bad else "ok"
+        cur = env.curve(l)
+        for v in c.v:
+            cfg = c04.base_cfg(proto, l, 1, 1, n, ks=rng.getrandbits(30))
+            pwd = rb(rng, max(8, min(size, 40)))
+            cfg["pwd"] = pwd.hex()
+            h, ra, rbb = c04.run_pipe(env, cfg)
+            if ra != 0 or rbb != 0 or c04._CB_ERR:
+                raise Harness("honest %s run failed while recording the transcript (%r %r %r)" % (proto, ra, rbb, c04._CB_ERR))
+            replies = [h.sent[nm] for nm in c04.SENDS[proto][1 - mine]]
+            if bad:
+                replies[-1] = replies[-1][:-1] + bytes([replies[-1][-1] ^ 0x40])
+            P = c04.build(env, cfg)
+            me = P[side]
+            key, wbuf = lib.alloc(32), lib.alloc(1024, 0)
+            f = lib.mk(mine.to_bytes(8, "little"))
+            pipe = c04.Pipe(c04.SENDS[proto], lambda nm, d: d)
+            for m in replies:
+                pipe.inbox[mine].put(m)
+            pipe.inbox[mine].put(c04._EOF)
+            fn = getattr(lib, "bake%sRun%s" % (proto, side))
+            if proto == "BMQV":
+                a = [key, me.params, me.settings, me.privkey, me.cert, me.peer_cert, c04.READ_ADDR, c04.WRITE_ADDR, f]
+            elif proto == "BSTS":
+                a = [key, me.params, me.settings, me.privkey, me.cert, me.cv_peer, c04.READ_ADDR, c04.WRITE_ADDR, f]
+            else:
+                a = [key, me.params, me.settings, me.pwd, me.pwd_len, c04.READ_ADDR, c04.WRITE_ADDR, f]
+
+            def thunk(fn=fn, a=a, pipe=pipe, wbuf=wbuf, mine=mine):
+                c04._PIPE["p"] = pipe
+                try:
+                    ret = fn(*a)
+                finally:
+                    c04._PIPE["p"] = None
+                out = b""
+                q = pipe.inbox[1 - mine]
+                while not q.empty():
+                    out += q.get()
+                lib.wr(wbuf, out[:1024])
+                return ret
+            v.args = [thunk]
+            v.outs = [(key, 32), (wbuf, 1024)]
+            d = env.keypair(l, side, cfg["ks"])[0]
+            own, peer = c04.cert_data(env, cfg, side), c04.cert_data(env, cfg, "B" if side == "A" else "A", side)
+            v.pub = list(replies) + [own, peer, cur["raw"]]
+            if proto == "BPACE":
+                hp = lib.alloc(32)
+                lib.beltHash(hp, lib.mk(pwd), len(pwd))
+                v.needles = [pwd, lib.rd(hp, 32)]
+            else:
+                v.needles = [d]
+        return c
+    return build
+
+
+for _pr in ("BMQV", "BSTS", "BPACE"):
+    for _sd in ("A", "B"):
+        BUILDERS["bake%sRun%s" % (_pr, _sd)] = _bake_run(_pr, _sd)
+        BUILDERS["bake%sRun%s:badtag" % (_pr, _sd)] = _bake_run(_pr, _sd, True)
+        HEAVY.add("bake%sRun%s" % (_pr, _sd))
+        HEAVY.add("bake%sRun%s:badtag" % (_pr, _sd))
